@@ -8,6 +8,7 @@ import numpy as np
 from hypothesis import strategies as st
 
 from .. import streamgen as sg
+from ..util import sint
 from ..core import SKIP, Sub, canon
 
 ID = "C18"
@@ -163,7 +164,7 @@ def run_collect(fe, tbl, contexts, style):
     out = {}
     for c in got:
         d, m = np.ma.getdata(c.results), np.ma.getmaskarray(c.results)
-        out[(c.stream_id, c.package, c.test)] = [None if mm else int(v) for v, mm in zip(np.asarray(d).ravel().tolist(), np.asarray(m).ravel().tolist())]
+        out[(c.stream_id, c.package, c.test)] = [None if mm else sint(v) for v, mm in zip(np.asarray(d).ravel().tolist(), np.asarray(m).ravel().tolist())]
     return out
 
 
